@@ -5,6 +5,10 @@ hc      HillClimbSearch.estimate driven with a StructureScore subclass whose loc
         rational table shared with the model: exact graph equality (node order, edges() order) in EVERY run,
         score ties included (candidates come in column order since /repo d77f396), the contract of the
         property checked independently on pgmpy's result in every case, caller's start_dag unchanged.
+session ONE HillClimbSearch object reused for 2-4 estimate() calls with a new score table (same scorer class)
+        and new options each time (use_cache on/off, toggled): each result = the model's for ITS table/options.
+        builtin cases likewise reuse one estimator for scorer instances of one class with different
+        equivalent_sample_size; ExhaustiveSearch.estimate twice; one TreeSearch with two weight functions.
 legal   HillClimbSearch._legal_operations on a random DAG/tabu list/option set vs the model's three
         generators: additions as a set, removals and flips as sequences, deltas exactly.
 builtin k2/bdeu/bds/bic/aic on small integer data: contract only (pgmpy's own score as oracle).
@@ -29,6 +33,7 @@ RULE = ("random option combinations over 2..6 columns (names str or int): score 
         "lists as list/set/tuple, max_indegree 0..3/None, tabu_length 0/1/2/5/None, dyadic epsilon incl. 0 and "
         "negative, max_iter 0..40, zero and non-zero structure_prior_ratio, cache on/off; malformed stream: "
         "start_dag over other nodes, fixed edges closing a cycle, fixed edge naming a non-column.  "
+        "sessions: one estimator object reused for several estimate() calls with different tables/hyper-parameters/options.  "
         "_legal_operations compared on random DAGs with random tabu lists.  ExhaustiveSearch on 2..4 columns.  "
         "TreeSearch for every root (and automatic root) on random data with mutual_info / normalized / table "
         "weight functions incl. ties, negative and zero weights; TAN for class/root pairs.  A case is "
@@ -73,6 +78,8 @@ def cases(tier, seed):
         out.append({"kind": "tree", "seed": rng.randint(0, 10**9)})
     for i in range(3 if nq else 12):
         out.append({"kind": "hc", "seed": rng.randint(0, 10**9), "foreign": True})
+    for i in range(250 if nq else 2500):
+        out.append({"kind": "session", "seed": rng.randint(0, 10**9)})
     rng.shuffle(out)
     return out
 
@@ -128,10 +135,12 @@ def as_form(rng, lst):
     return {"list": list, "set": set, "tuple": tuple}[f](lst), f
 
 
-def gen_hc(seed, foreign=False):
+def gen_hc(seed, foreign=False, n=None, names=None):
     rng = random.Random(seed)
-    n = rng.choice([2, 3, 3, 4, 4, 4, 5, 5, 6])
-    o = {"n": n, "names": gen_names(rng, n)}
+    if n is None:
+        n = rng.choice([2, 3, 3, 4, 4, 4, 5, 5, 6])
+        names = gen_names(rng, n)
+    o = {"n": n, "names": names}
     o["tstyle"] = rng.choice(["generic", "generic", "penal", "ties", "ties", "flat"])
     o["tab"] = gen_table(rng, n, o["tstyle"])
     # start (start and fixed edges mostly agree on a hidden order, so that their union is acyclic)
@@ -326,15 +335,47 @@ def table_obj(tab):
 
 def case_hc(case, drv):
     from pgmpy.estimators import HillClimbSearch
-    from pgmpy.base import DAG
     o = gen_hc(case["seed"], case.get("foreign", False))
+    df = frame(o["names"])
+    est = HillClimbSearch(df, use_cache=o["use_cache"])
+    key = common.canon_key(["hc", case["seed"], case.get("foreign", False)])
+    return hc_round(o, est, df, drv, case["seed"], key)
+
+
+def case_session(case, drv):
+    """one HillClimbSearch object reused for 2-4 estimate() calls: a new score table (same scorer class) and new
+    options each time; every result must be the model's result for ITS table and options"""
+    from pgmpy.estimators import HillClimbSearch
+    rng = random.Random(case["seed"])
+    o0 = gen_hc(rng.randint(0, 10**9))
+    n, names = o0["n"], o0["names"]
+    df = frame(names)
+    est = HillClimbSearch(df, use_cache=rng.random() < 0.8)
+    key = common.canon_key(["session", case["seed"]])
+    rounds = rng.choice([2, 2, 3, 4])
+    tags = ["session rounds=%d" % rounds, "session cache=%d" % est.use_cache]
+    nontrivial = False
+    for r in range(rounds):
+        o = o0 if r == 0 else gen_hc(rng.randint(0, 10**9), n=n, names=names)
+        if r > 0 and rng.random() < 0.15:
+            est.use_cache = not est.use_cache  # public attribute, read at every estimate()
+            tags.append("session cache-toggled")
+        out = hc_round(o, est, df, drv, rng.randint(0, 10**9), key)
+        tags += [t for t in out["tags"] if t.startswith(("steps=", "table=", "tie-broken", "error=", "exact"))]
+        if not out["ok"]:
+            out["kind"] = out["kind"] + "(session round %d)" % r
+            out["tags"] = tags
+            return out
+        nontrivial = nontrivial or out["nontrivial"]
+    return ok(nontrivial=nontrivial, key=key, tags=tags)
+
+
+def hc_round(o, est, df, drv, rseed, key, foreign=False):
     n, names = o["n"], o["names"]
     idx = {K(nm): i for i, nm in enumerate(names)}
-    rng = random.Random(case["seed"] + 1)
-    df = frame(names)
+    rng = random.Random(rseed + 1)
     tags = ["hc n=%d" % n, "table=" + o["tstyle"], "tabu=%s" % o["tabu_length"], "maxin=%s" % o["max_indegree"],
             "white=%s" % ("none" if o["white"] is None else "given"), "start=%s" % ("none" if o["start"] is None else "dag")]
-    key = common.canon_key(["hc", case["seed"], case.get("foreign", False)])
     start = build_start(o, names)
     fixed_named = [(names[u], names[v]) for u, v in o["fixed"]]
     if o["bad"] == "start-missing":
@@ -348,7 +389,6 @@ def case_hc(case, drv):
     white_arg = None if o["white"] is None else as_form(rng, [(names[u], names[v]) for u, v in o["white"]])[0]
     snap = None if start is None else (list(start.nodes()), list(start.edges()), {v: list(start.predecessors(v)) for v in start.nodes()})
     score = table_score(df, names, o["tab"], o["prior"])
-    est = HillClimbSearch(df, use_cache=o["use_cache"])
     # what the model needs to know about python's orders
     fixed_order_named = list(set(fixed_arg))
     if start is None:
@@ -418,7 +458,7 @@ def case_hc(case, drv):
     # the iteration order of set(fixed_edges) must not matter for the trace and the edge set (the table score
     # depends on the parent set only): re-run the model with the fixed edges in another order
     if len(fixed_order) >= 2:
-        alt = list(reversed(fixed_order)) if case["seed"] % 2 else sorted(fixed_order)
+        alt = list(reversed(fixed_order)) if rseed % 2 else sorted(fixed_order)
         if alt != fixed_order:
             m2 = drv.call("c11_hc", [cfg_obj(n, alt, o), table_obj(o["tab"]), m_nodes, [list(e) for e in m_edges]])
             if m2[4] != trace or sorted(map(tuple, m2[1])) != sorted(m_edges_r) or m2[2] != broke:
@@ -507,47 +547,62 @@ def case_builtin(case, drv):
         for s in range(cards[c]):
             rows[(c * 3 + s) % len(rows)][c] = s
     df = frame(names, rows=rows)
-    method = rng.choice(["k2", "bdeu", "bds", "bic", "aic"])
+    method = rng.choice(["k2", "bdeu", "bdeu", "bds", "bds", "bic", "aic"])
     cls = {"k2": K2Score, "bdeu": BDeuScore, "bds": BDsScore, "bic": BicScore, "aic": AICScore}[method]
-    oracle = cls(df)
-    o["eps"] = rng.choice([Fraction(1, 10000), Fraction(1, 100), Fraction(1), Fraction(0)])
-    o["max_iter"] = rng.choice([1, 3, 1000, 1000, 1000])
-    o["tabu_length"] = rng.choice([0, 0, 2, 100])
-    start = build_start(o, names)
-    est = HillClimbSearch(df)
-    try:
-        res = est.estimate(scoring_method=method, start_dag=start, fixed_edges=[(names[u], names[v]) for u, v in o["fixed"]],
-                           tabu_length=o["tabu_length"], max_indegree=o["max_indegree"],
-                           black_list=[(names[u], names[v]) for u, v in o["black"]],
-                           white_list=None if o["white"] is None else [(names[u], names[v]) for u, v in o["white"]],
-                           epsilon=float(o["eps"]), max_iter=o["max_iter"], show_progress=False)
-    except ValueError:
+    # ONE estimator object, 1-3 estimate() calls: same scorer class, different hyper-parameters and options;
+    # every result is judged against a FRESH scorer with the requested hyper-parameters
+    est = HillClimbSearch(df, use_cache=rng.random() < 0.85)
+    rounds = rng.choice([1, 2, 2, 3])
+    tags = ["builtin n=%d" % n, "method=" + method, "builtin rounds=%d" % rounds]
+    nontrivial = False
+    ess_pool = [1, 200, 5, 50]
+    rng.shuffle(ess_pool)
+    for r in range(rounds):
+        if r > 0:
+            o2 = gen_hc(rng.randint(0, 10**9), n=n, names=names)
+            o2["bad"] = None
+            o = o2
+        kw = {"equivalent_sample_size": ess_pool[r]} if method in ("bdeu", "bds") else {}
+        oracle = cls(df, **kw)
+        scoring = cls(df, **kw) if (kw or rng.random() < 0.5) else method
+        o["eps"] = rng.choice([Fraction(1, 10000), Fraction(1, 100), Fraction(1), Fraction(0)])
+        o["max_iter"] = rng.choice([1, 3, 1000, 1000, 1000])
+        o["tabu_length"] = rng.choice([0, 0, 0, 2, 100])
+        start = build_start(o, names)
         start_e = [] if start is None else o["start"][1]
-        if is_acyclic(range(n), set(start_e) | set(o["fixed"])):
-            return bad("impl!=spec:builtin-unexpected-valueerror", {}, key=key)
-        return ok(nontrivial=False, key=key, tags=["builtin", "error=cycle"])
-    g_nodes = [idx[K(v)] for v in res.nodes()]
-    g_edges = [(idx[K(u)], idx[K(v)]) for u, v in res.edges()]
-    cache = {}
+        try:
+            res = est.estimate(scoring_method=scoring, start_dag=start, fixed_edges=[(names[u], names[v]) for u, v in o["fixed"]],
+                               tabu_length=o["tabu_length"], max_indegree=o["max_indegree"],
+                               black_list=[(names[u], names[v]) for u, v in o["black"]],
+                               white_list=None if o["white"] is None else [(names[u], names[v]) for u, v in o["white"]],
+                               epsilon=float(o["eps"]), max_iter=o["max_iter"], show_progress=False)
+        except ValueError:
+            if is_acyclic(range(n), set(start_e) | set(o["fixed"])):
+                return bad("impl!=spec:builtin-unexpected-valueerror", {"round": r}, key=key, tags=tags)
+            tags.append("error=cycle")
+            continue
+        g_nodes = [idx[K(v)] for v in res.nodes()]
+        g_edges = [(idx[K(u)], idx[K(v)]) for u, v in res.edges()]
+        cache = {}
 
-    def score_of(E):
-        t = 0.0
-        for v in range(n):
-            k = (v, frozenset(u for (u, w) in E if w == v))
-            if k not in cache:
-                cache[k] = oracle.local_score(names[v], [names[u] for u in sorted(k[1])])
-            t += cache[k]
-        if method == "bds":  # BDsScore.structure_prior: -(#edges + const) * log 2, consistent with its prior ratio
-            import math
-            t -= len(set(E)) * math.log(2.0)
-        return t
-    start_e = [] if start is None else o["start"][1]
-    local_opt = o["tabu_length"] == 0 and o["max_iter"] == 1000 and o["eps"] > 0
-    c = contract(n, g_nodes, g_edges, start_e, o, score_of, local_opt, True, tol=1e-7)
-    tags = ["builtin n=%d" % n, "method=" + method, "edges=%d" % len(g_edges)] + (["local-optimum-checked"] if local_opt else [])
-    if c:
-        return bad("impl!=spec:builtin-" + c[0], dict(c[1], method=method, impl_edges=g_edges), key=key, tags=tags)
-    return ok(nontrivial=len(g_edges) > 0, key=key, tags=tags)
+        def score_of(E, oracle=oracle, cache=cache):
+            t = 0.0
+            for v in range(n):
+                k = (v, frozenset(u for (u, w) in E if w == v))
+                if k not in cache:
+                    cache[k] = oracle.local_score(names[v], [names[u] for u in sorted(k[1])])
+                t += cache[k]
+            if method == "bds":  # BDsScore.structure_prior: -(#edges + const) * log 2, consistent with its prior ratio
+                import math
+                t -= len(set(E)) * math.log(2.0)
+            return t
+        local_opt = o["tabu_length"] == 0 and o["max_iter"] == 1000 and o["eps"] > 0
+        c = contract(n, g_nodes, g_edges, start_e, o, score_of, local_opt, True, tol=1e-7)
+        tags += ["edges=%d" % len(g_edges)] + (["local-optimum-checked"] if local_opt else []) + (["ess=%s" % kw["equivalent_sample_size"]] if kw else [])
+        if c:
+            return bad("impl!=spec:builtin-" + c[0], dict(c[1], method=method, kw=str(kw), round=r, impl_edges=g_edges), key=key, tags=tags)
+        nontrivial = nontrivial or len(g_edges) > 0
+    return ok(nontrivial=nontrivial, key=key, tags=tags)
 
 
 def case_exh(case, drv):
@@ -577,6 +632,9 @@ def case_exh(case, drv):
             return bad("impl!=model:all_scores", {"impl": str(got[:5]), "model": str(exp[:5])}, key=key, tags=tags)
         tags.append("all_scores")
     r = es.estimate()
+    r_again = es.estimate()  # same object, second call
+    if sorted(r.edges()) != sorted(r_again.edges()):
+        return bad("impl!=spec:exh-second-call-differs", {}, key=key, tags=tags)
     got = sorted((idx[K(u)], idx[K(v)]) for u, v in r.edges())
     mx = max(q for q, _ in allm)
     if sorted(idx[K(v)] for v in r.nodes()) != list(range(n)) or not is_acyclic(range(n), got):
@@ -708,6 +766,27 @@ def case_tree(case, drv):
         if indeg[root] != 0 or any(indeg[v] != 1 for v in keep if v != root):
             return bad("impl!=spec:orientation", {"edges": edges, "root": root}, key=key, tags=tags)
         checked += 1
+    # the same TreeSearch object reused with ANOTHER weight function: the second tree must be optimal for the
+    # second weights (nothing of the first call may be remembered)
+    if kind == "chow-liu" and n >= 3:
+        wt2 = {}
+        for i in range(n):
+            for j in range(i + 1, n):
+                wt2[(i, j)] = wt2[(j, i)] = Fraction(rng.randint(1, 2**16), 2**8)
+
+        def fn2(u, v):
+            return float(wt2[(idx[K(u.name)], idx[K(v.name)])])
+        r0 = rng.randrange(n)
+        ts = TreeSearch(df, root_node=names[r0], n_jobs=1)
+        ts.estimate(estimator_type="chow-liu", edge_weights_fn=fn, show_progress=False)
+        D2 = ts.estimate(estimator_type="chow-liu", edge_weights_fn=fn2, show_progress=False)
+        e2 = [(idx[K(u)], idx[K(v)]) for u, v in D2.edges()]
+        G2 = [[[i, j], wt2[(i, j)]] for i in range(n) for j in range(i + 1, n)]
+        T2 = sorted({(min(u, v), max(u, v)) for u, v in e2})
+        chk, span, orient = drv.call("c11_tree", [list(range(n)), G2, [list(e) for e in T2], r0])
+        if not (chk and span) or sorted(e2) != sorted(tuple(e) for e in orient):
+            return bad("impl!=spec:tree-reused-object", {"edges": e2, "G2": str(G2), "root": r0, "mst_chk": chk}, key=key, tags=tags)
+        tags.append("tree-object-reused")
     # argument checks
     for kw in ({"estimator_type": "nope"}, {"estimator_type": "tan"}, {"estimator_type": "tan", "class_node": "__none__"}):
         try:
@@ -729,6 +808,8 @@ def run_case(case, drv):
     k = case["kind"]
     if k == "hc":
         return case_hc(case, drv)
+    if k == "session":
+        return case_session(case, drv)
     if k == "legal":
         return case_legal(case, drv)
     if k == "builtin":
